@@ -163,14 +163,26 @@ func checkC06(c *Ctx) error {
 				continue
 			}
 			bounds := r.Chance(1, 4)
+			clash := ""
+			if r.Chance(1, 2) {
+				clash = plan.ClashName()
+			}
 			mk := func(p *bind.Plan, want string) *c06Case {
 				cc := &c06Case{Plan: p, Want: want}
 				cc.PCase = *pc
 				cc.Opt = gram.HarnessOpt{Bounds: bounds}
 				_, in, st := pc.G.Harness(cc.Opt)
 				cc.Files = map[string]string{"g.lox": pc.Lox, "harness.go": p.Harness(bounds)}
+				if clash != "" {
+					// the user's package is called like a package it imports
+					cc.Files["harness.go"] = p.HarnessClash(bounds, clash)
+					cc.Files["__pkgname__"] = clash
+				}
 				cc.Intern, cc.Stub = in, st
 				cc.Origin = pc.Origin + "/" + p.Fault
+				if clash != "" {
+					cc.Origin += "/package-named-" + clash
+				}
 				return cc
 			}
 			cases = append(cases, mk(plan, ""))
@@ -361,7 +373,7 @@ func c06RunBatch(c *Ctx, r *rng.R, b *run.Batch, cases []*c06Case) {
 			report("action-parameter-does-not-hold-its-terms-value", diff, sem.Show(exp.Events), sem.Show(res.Events))
 			continue
 		}
-		if jid%53 == 0 {
+		if c.Ev.WantSample() {
 			c.Ev.Sample(map[string]any{"lox": cc.Lox, "harness_methods": methodSigs(cc.Plan), "input": tokString(cc.G, w)})
 		}
 	}
